@@ -27,6 +27,7 @@ BOUNDS = {
     "pep440_display": "5 SemVer and 5 PEP 440 sample versions",
     "resolve_barrier": "15 texts (incl. non-ASCII, fullwidth, whitespace) x 19 variables x 2 presets",
     "sanitize_uint_claim": "see sanitize",
+    "template_functions": "prefix / hash / hash_int / prefix_if / sanitize on 10 values (incl. multi-byte) x lengths {0,1,2,3,7,30}; format_timestamp on 4 instants x 10 formats incl. invalid ones — rendered through the real Tera engine",
 }
 
 
